@@ -117,6 +117,35 @@ def patterns_for(text, rng, other="zz.invalid"):
     return good
 
 
+ALPHABET = "d0s1.example:%f8-DB2c69"
+
+
+def random_ast(rng, depth=3, star_ok=True):
+    """a random expression of the modelled syntax over the alphabet of the host texts (no star directly under a star)"""
+    r = rng.random()
+    if depth == 0 or r < 0.3:
+        return ("lit", "".join(rng.choice(ALPHABET) for _ in range(rng.randrange(1, 4))))
+    if r < 0.38:
+        return ("any",)
+    if r < 0.5:
+        rs = []
+        for _ in range(rng.randrange(1, 4)):
+            lo = ord(rng.choice("0a:.%Ad"))
+            rs.append((lo, lo + rng.choice([0, 0, 5, 9])))
+        return ("cls", rng.random() < 0.3, rs)
+    if r < 0.7:
+        return ("cat", random_ast(rng, depth - 1, star_ok), random_ast(rng, depth - 1, star_ok))
+    if r < 0.85:
+        return ("alt", random_ast(rng, depth - 1, star_ok), random_ast(rng, depth - 1, star_ok))
+    if not star_ok:
+        return ("lit", rng.choice(ALPHABET))
+    return (rng.choice(["star", "plus", "opt"]), random_ast(rng, depth - 1, False))
+
+
+def random_pattern(rng):
+    return (rng.random() < 0.4, random_ast(rng), rng.random() < 0.4)
+
+
 # ------------------------------------------------------------------ subnets
 def net_parsed(cidr):
     """what net.ParseCIDR yields (IPNet.IP, IPNet.Mask) -- the generator's belief, validated by the decisions"""
@@ -292,15 +321,43 @@ def cfg_coq(c):
     return "(ELists (mkLists %s %s %s %s %s))" % (nets(c["block"]), nets(c["allow"]), nets(c["phantom"]), pats(c["domains"]), gbool(bool(c.get("public"))))
 
 
+SCALARS = {"enable_v4": "false", "enable_v6": "false", "ingest_worker_count": "0", "enable_share_over_api": "false", "preshare_endpoint": '""'}   # Go zero values
+
+
 def random_keys(rng):
     ks = {}
     if rng.random() < 0.3:
         ks["ingest_worker_count"] = str(rng.choice([0, 1, 20, 100]))
     if rng.random() < 0.2:
         ks["log_level"] = '"error"'
-    if rng.random() < 0.2:
-        ks["enable_v4"] = rng.choice(["true", "false"])
+    for k in ("enable_v4", "enable_v6", "enable_share_over_api"):
+        if rng.random() < 0.25:
+            ks[k] = rng.choice(["true", "false"])
+    if rng.random() < 0.15:
+        ks["preshare_endpoint"] = '"http://203.0.113.%d:8080/share"' % rng.randrange(1, 250)
     return ks
+
+
+def golist(l):
+    """fmt.Sprintf("%q", []string) of a written list (patterns are rendered by pat_go)"""
+    def q(s):
+        return '"' + s.replace("\\", "\\\\").replace('"', '\\"') + '"'
+    return "[" + " ".join(q(e if not isinstance(e, tuple) else (e[1] if e[0] == "bad" else pat_go(e[1]))) for e in (l or [])) + "]"
+
+
+def written_keys(c):
+    """the settings a configuration file writes, as the driver renders the manager's fields"""
+    w = dict(SCALARS)
+    for k, v in c["keys"].items():
+        if k in w:
+            w[k] = v
+    w["covert_blocklist_public_addrs"] = "true" if c.get("public") else "false"
+    for l, key in (("block", "covert_blocklist_subnets"), ("allow", "covert_allowlist_subnets"), ("phantom", "phantom_blocklist"), ("domains", "covert_blocklist_domains")):
+        w[key] = golist(c[l])
+    return w
+
+
+RELOADED_KEYS = ("covert_blocklist_public_addrs", "covert_blocklist_subnets", "covert_allowlist_subnets", "covert_blocklist_domains", "phantom_blocklist")
 
 
 # ------------------------------------------------------------------ oracle: does an entry forbid it?
@@ -398,7 +455,7 @@ def random_cfg(rng, subj):
     if rng.random() < 0.7:
         doms = []
         for _ in range(rng.randrange(0, 4)):
-            doms.append(("pat", rng.choice(patterns_for(rng.choice(texts), rng))[1]))
+            doms.append(("pat", random_pattern(rng) if rng.random() < 0.5 else rng.choice(patterns_for(rng.choice(texts), rng))[1]))
     ph = rng.choice([None, [], [rng.choice(phantom_nets(rng.randrange(NSUBJ))) for _ in range(rng.randrange(1, 3))]])
     return cfg(block=nets(), allow=nets(0.6), phantom=ph, domains=doms, why="random", keys=random_keys(rng), public=rng.choice([None, None, False, True]))
 
@@ -490,6 +547,7 @@ def run_enforce(ctx, files):
         base_case = {"enforce_steps": steps_json, "focus": list(c["focus"]), "toml": [s.get("text", "<unreadable>") for s in j["steps"]]}
         ctx.count(("enforce", repr(steps_json), c["focus"]), nontrivial=bool(r["steps"]), kind=c["tag"])
         in_force, sterms = None, []
+        prev_admit, prev_ph, prev_keys = None, None, None
         ifaces = [(bytes.fromhex(a), bytes.fromhex(b)) for a, b in (r.get("ifaces") or [])]
         for k, (cf, st) in enumerate(zip(c["steps"], r["steps"])):
             case = dict(base_case, step=k)
@@ -516,10 +574,43 @@ def run_enforce(ctx, files):
             if accepted and cf["kind"] == "lists" and loads:
                 in_force = cf
             hist = ctx.cov["histogram"]
+            # ---- the settings the manager holds: written value after start-up, untouched by a failed reload, and after a
+            # reload that loads the policy keys are the new file's (the other keys are by design not replaced by OnReload:
+            # recorded in the key table, never alarmed on)
+            keys = st.get("keys") or {}
+            ktab = ctx.cov.setdefault("enforce_key_table", {})
+            if k == 0:
+                for kk, want in written_keys(cf).items():
+                    row = ktab.setdefault(kk, {"start_ok": 0, "start_differs": 0, "failed_reload_unchanged": 0, "failed_reload_changed": 0, "reload_replaced": 0, "reload_kept": 0})
+                    if keys.get(kk) == want:
+                        row["start_ok"] += 1
+                    else:
+                        row["start_differs"] += 1
+                        ctx.fail("enforced:key-not-in-force/%s" % kk, "after start-up the manager holds %s = %s, the accepted file wrote %s" % (kk, keys.get(kk), want), case)
+            elif failed_reload:
+                for kk, v in keys.items():
+                    row = ktab.setdefault(kk, {"start_ok": 0, "start_differs": 0, "failed_reload_unchanged": 0, "failed_reload_changed": 0, "reload_replaced": 0, "reload_kept": 0})
+                    if prev_keys is not None and prev_keys.get(kk) != v:
+                        row["failed_reload_changed"] += 1
+                        ctx.fail("reload:failed-load-changed-state/key/%s" % kk, "a reload whose configuration did not load changed %s from %s to %s" % (kk, prev_keys.get(kk), v), case)
+                    else:
+                        row["failed_reload_unchanged"] += 1
+            else:
+                want = written_keys(cf)
+                for kk, v in keys.items():
+                    row = ktab.setdefault(kk, {"start_ok": 0, "start_differs": 0, "failed_reload_unchanged": 0, "failed_reload_changed": 0, "reload_replaced": 0, "reload_kept": 0})
+                    if kk in RELOADED_KEYS and v != want[kk]:
+                        ctx.fail("enforced:key-not-in-force/%s" % kk, "after a reload that loaded the manager holds %s = %s, the new file wrote %s" % (kk, v, want[kk]), case)
+                    if prev_keys is not None and want[kk] != prev_keys.get(kk):
+                        row["reload_replaced" if v == want[kk] else "reload_kept"] += 1
+            prev_keys = keys
             hist["enforce/step/" + ("failed-reload" if failed_reload else "loaded" if k else "start")] = hist.get("enforce/step/" + ("failed-reload" if failed_reload else "loaded" if k else "start"), 0) + 1
             qterms = []
-            for q, o in zip(qs, st["q"] or []):
+            cur_admit = [o.get("admit") for o in (st["q"] or [])]
+            for qi, (q, o) in enumerate(zip(qs, st["q"] or [])):
                 ncheck["decisions"] += 1
+                # a failed reload is blamed only for what it CHANGED; a decision that was already wrong keeps its own key
+                changed = failed_reload and prev_admit is not None and qi < len(prev_admit) and prev_admit[qi] != o.get("admit")
                 if o.get("panic"):
                     ctx.fail("panic:ParseOrResolveBlocklisted", "ParseOrResolveBlocklisted(%r) panicked: %s" % (q["s"], o["panic"]), dict(case, covert=q["s"]))
                     continue
@@ -543,13 +634,13 @@ def run_enforce(ctx, files):
                         ek = kinds[0] if len(kinds) == 1 else "+".join(kinds)
                         what = ("the covert %r (host %r, a %s) was admitted (%s) although the configuration in force forbids it: %s"
                                 % (q["s"], q["host"], q["hk"], bytes.fromhex(o["out"]).decode("latin-1"), "; ".join("%s %s" % e for e in fb)))
-                        if failed_reload:
+                        if changed:
                             ctx.fail("reload:failed-load-changed-state/policy", "after a reload whose configuration did not load, " + what, dict(case, covert=q["s"]))
                         else:
                             ctx.fail("enforced:%s-not-enforced/%s" % (ek, q["hk"]), "after %s " % where + what, dict(case, covert=q["s"]))
                     elif not fb and not o["admit"]:
                         what = "the covert %r (host %r, a %s) was refused although no entry of the configuration in force forbids it" % (q["s"], q["host"], q["hk"])
-                        if failed_reload:
+                        if changed:
                             ctx.fail("reload:failed-load-changed-state/policy", "after a reload whose configuration did not load, " + what, dict(case, covert=q["s"]))
                         else:
                             ctx.fail("enforced:decision-differs/refused-without-entry/%s" % q["hk"], "after %s " % where + what, dict(case, covert=q["s"]))
@@ -559,9 +650,12 @@ def run_enforce(ctx, files):
                 split = "(Some (%s, %s))" % (gb(bytes.fromhex(o["host"])), gb(bytes.fromhex(o["port"]))) if o["split_ok"] else "None"
                 resd = "(RAddr %s %s)" % (gb(bytes.fromhex(o["res_ip"])), gbool(o["res_zone"])) if o["res_ok"] else "RFail"
                 qterms.append("mkQ %s %s %s %s %s %s" % (gb(q["s"]), gbool(o["whole"]), split, resd, glist(o["dom"], gbool), gbool(o["admit"])))
+            prev_admit = cur_admit
             phterms = []
-            for p, v in zip(ph, st["ph"] or []):
+            cur_ph = list(st["ph"] or [])
+            for pi, (p, v) in enumerate(zip(ph, st["ph"] or [])):
                 ncheck["phantom"] += 1
+                failed_changed = failed_reload and prev_ph is not None and pi < len(prev_ph) and prev_ph[pi] != v
                 if v.startswith("panic"):
                     ctx.fail("panic:IsBlocklistedPhantom", "IsBlocklistedPhantom(%s) panicked: %s" % (p["ip"].hex(), v), case)
                     continue
@@ -571,11 +665,12 @@ def run_enforce(ctx, files):
                 hist[kk] = hist.get(kk, 0) + 1
                 if want and not got:
                     what = "the phantom address %s (%s) is not refused although phantom_blocklist has %s" % (ipaddress.ip_address(p["ip"]), p["fam"], want)
-                    ctx.fail("reload:failed-load-changed-state/policy" if failed_reload else "enforced:phantom-entry-not-enforced/%s" % p["fam"], "after %s " % where + what, case)
+                    ctx.fail("reload:failed-load-changed-state/policy" if failed_changed else "enforced:phantom-entry-not-enforced/%s" % p["fam"], "after %s " % where + what, case)
                 elif got and not want:
                     what = "the phantom address %s (%s) is refused although no phantom_blocklist entry contains it" % (ipaddress.ip_address(p["ip"]), p["fam"])
-                    ctx.fail("reload:failed-load-changed-state/policy" if failed_reload else "enforced:decision-differs/phantom-refused-without-entry", "after %s " % where + what, case)
+                    ctx.fail("reload:failed-load-changed-state/policy" if failed_changed else "enforced:decision-differs/phantom-refused-without-entry", "after %s " % where + what, case)
                 phterms.append("(%s, %s)" % (gb(p["ip"]), gbool(got)))
+            prev_ph = cur_ph
             sterms.append("(mkS %s %s %s %s)" % (cfg_coq(cf), gbool(accepted), glist(qterms, lambda t: "(%s)" % t), glist(phterms)))
         if sterms:
             terms.append("(%s, %s)" % (glist(ifaces, lambda n: "(%s, %s)" % (gb(n[0]), gb(n[1]))), glist(sterms)))
